@@ -91,9 +91,9 @@ func WaitAvailableKeys(keys *Keys, cfg *inputrc.Config) error {
 				keyBuf = []byte(strutil.ConvertMeta([]rune(string(keyBuf))))
 			}
 
-			keys.mutex.RLock()
+			keys.mutex.Lock()
 			keys.buf = append(keys.buf, keyBuf...)
-			keys.mutex.RUnlock()
+			keys.mutex.Unlock()
 		}
 
 		return nil
@@ -208,15 +208,15 @@ func FlushUsed(keys *Keys) {
 // returns them instead of storing them in the stack, along with
 // an indication on whether this key is an escape/abort one.
 func (k *Keys) ReadKey() (key rune, isAbort bool) {
-	k.mutex.RLock()
+	k.mutex.Lock()
 	k.keysOnce = make(chan []byte)
 	k.reading = true
-	k.mutex.RUnlock()
+	k.mutex.Unlock()
 
 	defer func() {
-		k.mutex.RLock()
+		k.mutex.Lock()
 		k.reading = false
-		k.mutex.RUnlock()
+		k.mutex.Unlock()
 	}()
 
 	switch {
